@@ -51,7 +51,9 @@ func (errWriter) Write([]byte) (int, error) { return 0, errors.New("injected wri
 // may do): the error counts, not the count.
 type errFullWriter struct{}
 
-func (errFullWriter) Write(p []byte) (int, error) { return len(p), errors.New("injected write failure") }
+func (errFullWriter) Write(p []byte) (int, error) {
+	return len(p), errors.New("injected write failure")
+}
 
 // shortWriter passes a strict prefix to the real stdout and reports the short count without error.
 type shortWriter struct{}
